@@ -375,7 +375,16 @@ def _check_map(case):
         progs.set_fail(None)
         progs.set_log(None, None)
         if ex is not None:
+            procs = list(getattr(ex, "_processes", {}).values()) if getattr(ex, "_processes", None) else []
             ex.shutdown(wait=False, cancel_futures=True)
+            for pr in procs:  # a pool whose workers never get their exit sentinel would block this process at exit
+                try:
+                    pr.join(2)
+                    if pr.is_alive():
+                        pr.terminate()
+                        pr.join(2)
+                except Exception:  # noqa: BLE001
+                    pass
         shutil.rmtree(base, ignore_errors=True)
 
 
